@@ -384,7 +384,21 @@ def _whitelisted(exc):
 def _mesh_invariants(plan, fail, probe):
     """Setup invariants of C17, checked serially in every run (the simulation needs them anyway)."""
     import pde  # noqa: F401
-    from pde.grids._mesh import GridMesh, MPIFlags
+    import importlib
+
+    from pde.grids._mesh import GridMesh
+
+    mpi_mod = importlib.import_module("pde.tools.mpi")
+
+    def flag_of(node, neighbor, upper):
+        """The tag node `node` uses for its lower/upper link to `neighbor` (through the mesh's own method, evaluated
+        as that node; how tags are derived internally is not the harness' business)."""
+        old = mpi_mod.rank
+        mpi_mod.rank = node
+        try:
+            return int(mesh.get_boundary_flag(neighbor, upper))
+        finally:
+            mpi_mod.rank = old
 
     gspec = plan["grid"]
     grid = _build_grid(gspec)
@@ -474,14 +488,16 @@ def _mesh_invariants(plan, fail, probe):
                 if back != a:
                     fail("C17/neighbours", f"neighbour relation not symmetric: n({a}, axis {ax}, {'up' if upper else 'down'}) = {b} but "
                          f"n({b}, axis {ax}, {'down' if upper else 'up'}) = {back}")
-                mine = MPIFlags.boundary_upper(a, b) if upper else MPIFlags.boundary_lower(a, b)
-                theirs = MPIFlags.boundary_lower(b, a) if upper else MPIFlags.boundary_upper(b, a)
+                mine = flag_of(a, b, upper)
+                theirs = flag_of(b, a, not upper)
                 if mine != theirs:
                     fail("C17/link-flags", f"link {a}<->{b} axis {ax}: flag {mine} at one end, {theirs} at the other")
                 links.setdefault((a, b), []).append(int(mine))
     for (a, b), flags in links.items():
         if len(set(flags)) != len(flags):
-            fail("C17/link-flags", f"messages {a}->{b} of distinct links share a tag: {flags} ({gspec}, {dec})")
+            # not a violation by itself: messages of one channel are delivered in order, so equal tags are harmless as long
+            # as sends and receives are issued in the same order; the simulated exchange decides
+            probe("distinct_links_share_a_tag")
     return mesh
 
 
